@@ -162,6 +162,16 @@ func ruleOwnMut(p *Prog, r *Reporter) {
 				if isGlobal {
 					what = "a package-level variable"
 				}
+				// code outside the repository receiving the address of package-level state (caches, pools, shared buffers)
+				if bad == "" && isGlobal && ao.kind == oRef {
+					if _, isPtr := a.Type().Underlying().(*types.Pointer); isPtr {
+						for _, callee := range callees {
+							if callee.Blocks == nil || !p.isRepoFunc(callee) {
+								bad = "its address is passed to " + calleeName(callee) + " outside the repository, which may write it: package-level mutable state shared by all tokens, authorizers and goroutines"
+							}
+						}
+					}
+				}
 				if bad != "" {
 					r.Bad(pos, name, construct, "reference into "+what+" ("+rootName(p, ao.root)+") handed to a mutator: "+bad)
 				} else {
